@@ -354,7 +354,11 @@ theorem wrap_transparent_generated (n : Native) :
 
 example : (nlpTE.find "eval_grad_gi").map (·.required) = some false ∧
     (nlpWrapper.wrap ⟨fun _ => true, fun f => f == "eval_grad_gi", fun _ => false⟩).provided "eval_grad_gi" = false ∧
-    (nlpWrapper.wrap ⟨fun _ => true, fun _ => false, fun _ => false⟩).provided "eval_grad_gi" = true := by decide
+    (nlpWrapper.wrap ⟨fun _ => true, fun _ => false, fun _ => false⟩).provided "eval_grad_gi" = true ∧
+    (ocpTE.find "eval_h").map (·.required) = some false ∧
+    (ocpWrapper.wrap ⟨fun _ => true, fun f => f == "eval_h", fun _ => false⟩).provided "eval_h" = false ∧
+    (ocpWrapper.wrap ⟨fun f => f != "eval_h", fun _ => false, fun _ => false⟩).provided "eval_h" = false ∧
+    (ocpWrapper.wrap ⟨fun _ => true, fun _ => false, fun _ => false⟩).provided "eval_h" = true := by decide
 
 /-! ## 5. `flags_truthful` restated against the generated tables
 
@@ -435,7 +439,9 @@ example :
     resolveNLP (fun f => f == "eval_hess_L_prod") true "eval_hess_ψ_prod" = .calls ["eval_hess_L_prod"] ∧
     resolveNLP (fun f => f == "eval_hess_L_prod") false "eval_hess_ψ_prod" = .notImpl "eval_hess_ψ_prod" ∧
     (nlpTE.find "eval_ψ").bind (·.dflt) = some .computes ∧
-    resolveNLP (fun f => f == "eval_hess_L_prod") false "eval_ψ" = .calls ["eval_g", "eval_f", "eval_proj_diff_g"] := by
+    resolveNLP (fun f => f == "eval_hess_L_prod") false "eval_ψ" = .calls ["eval_g", "eval_f", "eval_proj_diff_g"] ∧
+    (nlpTE.find "eval_hess_L_prod").isSome = true ∧
+    resolveNLP (fun f => f == "eval_hess_L_prod") false "eval_hess_L_prod" = .calls ["eval_hess_L_prod"] := by
   decide
 
 /-- the four `default_X_N` bodies forward to entry `X` through the vtable -/
